@@ -162,7 +162,8 @@ class YAMLPath:
         prefixed_segment = "{}{}".format(self.separator, removable_segment)
         path_now = self.original
 
-        if path_now.endswith(prefixed_segment):
+        if (self.separator is not PathSeparators.FSLASH
+                and path_now.endswith(prefixed_segment)):
             self.original = path_now[0:len(path_now) - len(prefixed_segment)]
         elif path_now.endswith(removable_segment):
             self.original = path_now[0:len(path_now) - len(removable_segment)]
